@@ -14,6 +14,7 @@ import common
 
 TOOLS = ("check-express", "exppp", "exp2cxx", "exp2python")
 TRAILERS = ("Errors in input", "No errors in input")
+OUTPUT_CAP = 48 << 20      # bytes of stdout+stderr after which a run is stopped ("output flood")
 
 
 # ----------------------------------------------------------------------------------------------------------------
@@ -93,7 +94,7 @@ def _limits(cpu_s, as_bytes):
 
 
 class Run:
-    __slots__ = ("rc", "sig", "timeout", "out", "err", "cpu", "wall", "cmd", "cpu_exceeded")
+    __slots__ = ("rc", "sig", "timeout", "out", "err", "cpu", "wall", "cmd", "cpu_exceeded", "flood")
 
     def __repr__(self):
         return "Run(rc=%s sig=%s timeout=%s cpu=%.2f)" % (self.rc, self.sig, self.timeout, self.cpu)
@@ -118,10 +119,20 @@ def run_tool(exe, args, cwd, timeout=60, cpu_limit=None, env=None, max_out=4 << 
     # light: no preexec_fn, so that CPython can use vfork/posix_spawn (several times cheaper; for tools that start no children)
     p = subprocess.Popen(r.cmd, cwd=cwd, stdin=subprocess.DEVNULL, stdout=fo, stderr=fe, env=env,
                          preexec_fn=None if light else _limits(cpu_limit, None))
+    # kernel-enforced limits set from outside (no preexec_fn needed): if this process is killed while the child runs, an
+    # orphaned tool that loops or floods its (unlinked) output file still dies by itself instead of filling the disk
+    try:
+        hard_cpu = int((cpu_limit or timeout) * 2 + 30)
+        resource.prlimit(p.pid, resource.RLIMIT_CPU, (hard_cpu, hard_cpu + 2))
+        resource.prlimit(p.pid, resource.RLIMIT_FSIZE, (4 * OUTPUT_CAP, 4 * OUTPUT_CAP))
+        resource.prlimit(p.pid, resource.RLIMIT_CORE, (0, 0))
+    except (OSError, ValueError):
+        pass
     r.timeout = False
     deadline = t0 + timeout
     ru = None
     r.cpu_exceeded = False
+    r.flood = False
     tick = os.sysconf("SC_CLK_TCK")
     polls = 0
     while True:
@@ -138,8 +149,16 @@ def run_tool(exe, args, cwd, timeout=60, cpu_limit=None, env=None, max_out=4 << 
                 over = (int(parts[11]) + int(parts[12])) / tick > cpu_limit
             except (OSError, IndexError, ValueError):
                 over = False
-        if over or time.time() > deadline:
+        flood = False
+        if polls % 25 == 0:
+            # a tool that loops while printing must not fill the disk: captured output is capped
+            try:
+                flood = os.fstat(fo.fileno()).st_size + os.fstat(fe.fileno()).st_size > OUTPUT_CAP
+            except OSError:
+                flood = False
+        if over or flood or time.time() > deadline:
             r.cpu_exceeded = over
+            r.flood = flood
             r.timeout = True
             try:
                 if light:
@@ -158,6 +177,11 @@ def run_tool(exe, args, cwd, timeout=60, cpu_limit=None, env=None, max_out=4 << 
         r.sig, r.rc = os.WTERMSIG(st), None
     else:
         r.sig, r.rc = 0, os.WEXITSTATUS(st)
+    if r.sig in (signal.SIGXFSZ, signal.SIGXCPU):
+        # the kernel-enforced safety limits above, not a fault of the tool's own: same meaning as the polled ones
+        r.flood = r.flood or r.sig == signal.SIGXFSZ
+        r.cpu_exceeded = r.cpu_exceeded or r.sig == signal.SIGXCPU
+        r.timeout = True
     if r.timeout:
         r.sig, r.rc = 0, None
     for f, attr in ((fo, "out"), (fe, "err")):
